@@ -176,7 +176,7 @@ def g_obj_leaf(rnd):
     if r < 0.45:
         return ('type', g_word(rnd, _TYPE_GLOBS))
     if r < 0.9:
-        return ('id', rnd.randint(0, 7), rnd.choice([None, None, 'a', 'b', 'c', 'B']))
+        return ('id', rnd.randint(0, 7), rnd.choice([None, None, 'a', 'b', 'c', 'B', 'z', 'Z', 'az', 'ba']))
     return ('nil',)
 
 
